@@ -70,7 +70,7 @@ def run_config(ctx, rep, cfg, F):
             callee = c.get("callee") or ""
             if callee in ("prefix_trie::prefix::Prefix::repr", "prefix_trie::prefix::Prefix::from_repr_len"):
                 n_sites += 1
-                if not file.endswith("prefix.rs"):
+                if not C.in_module(F, p, C.PREFIX_MOD):
                     rep.bad("R18.1", short, callee.rsplit("::", 1)[1], "%s (%s) calls %s: trie code must not look at the raw representation "
                             "of a key (host bits) — only mask / eq / contains / is_bit_set / prefix_len / longest_common_prefix"
                             % (short, file, callee), config=cfg)
@@ -79,7 +79,7 @@ def run_config(ctx, rep, cfg, F):
     rep.floor("repr / from_repr_len call sites (%s)" % cfg, n_sites, 1)
     for f in F.lib_fns():
         short = F.short_of[f["path"]]
-        if f["file"].endswith("prefix.rs") or f["file"].endswith("serde.rs") or f["file"].endswith("fmt.rs"):
+        if C.in_module(F, f["path"], C.PREFIX_MOD) or C.in_module(F, f["path"], "prefix_trie::serde") or C.in_module(F, f["path"], "prefix_trie::fmt"):
             continue
         for pr in f["preds"]:
             tr = (pr.get("trait") or "").split("::")[-1]
